@@ -208,6 +208,10 @@ fn run_conc(cfg: &ConcCfg, rng: &mut Rng, sid: u64) -> ConcOutcome {
                         if prng.chance(1, 20) {
                             std::thread::yield_now();
                         }
+                        if prng.chance(1, 25) {
+                            // callers may flush at any time: it must neither block on nor run the wrapped sink's emit
+                            let _ = panics::guard(|| hd.flush());
+                        }
                     }
                     drop(handle);
                     procmon::unregister(tid);
